@@ -151,6 +151,13 @@ static int check_addr(const mi_segment_t* seg, const mi_page_t* page, uint8_t* b
   }
   return 0;
 }
+static size_t g_wk_n, g_wk_bs; static uint64_t g_wk_h; static int g_wk_bad;
+static bool walk_count_cb(const mi_heap_t* heap, const mi_heap_area_t* area, void* block, size_t block_size, void* arg) {
+  (void)heap; (void)arg;
+  if (block == NULL || area->full_block_size != g_wk_bs) return true;
+  g_wk_n++; g_wk_h += vf_mix((uintptr_t)block); if (block_size != area->block_size) g_wk_bad++;
+  return true;
+}
 static void sec4_bin(long bin) {
   CASE(4, bin); VF_INC(nodes);
   size_t bs = _mi_bin_size((size_t)bin);
@@ -182,6 +189,15 @@ static void sec4_bin(long bin) {
   }
   VF_ADD(counters[3], (long)pages_seen);
   if (segs_seen > 1) VF_INC(nontrivial);
+  /* the heap walk recovers the index of every free block of a partially used page with a fast division by the block size:
+     release every third block, walk, and require exactly the live blocks of this class (each with the usable size) */
+  { size_t live = 0; uint64_t hsum = 0;
+    for (size_t i = 0; i < nblocks; i++) { if (i % 3 == 0) { mi_free(ptrs[i]); ptrs[i] = NULL; } else { live++; hsum += vf_mix((uintptr_t)ptrs[i]); } }
+    g_wk_n = 0; g_wk_h = 0; g_wk_bs = bs; g_wk_bad = 0;
+    mi_heap_visit_blocks(mi_heap_get_default(), true, &walk_count_cb, NULL);
+    VF_INC(checks);
+    if (g_wk_n != live || g_wk_h != hsum || g_wk_bad) { VIOL("walk-blocks", "bin %ld (block size %zu): after releasing every third of %zu blocks the heap walk reports %zu blocks of this class (expected %zu; address sum %s; %d with a wrong size)", bin, bs, nblocks, g_wk_n, live, g_wk_h == hsum ? "equal" : "differs", g_wk_bad); return; }
+  }
   for (size_t i = 0; i < nblocks; i++) mi_free(ptrs[i]);
   vf_real_munmap(ptrs, nblocks * sizeof(void*));
 }
